@@ -142,6 +142,27 @@ pub open spec fn fundef_post(ast: ASTTy, state: State, ctx: Context, c: Core) ->
     }
 }
 
+/// C17 "same parameter names in the same order and the same defaults and variadic markers": a parameter keeps its variadic
+/// marker, its name is the conversion of the declared name, it has a default iff one is declared, and that is its conversion
+pub open spec fn funarg_post(ast: ASTTy, state: State, ctx: Context, c: Core) -> bool {
+    match ast.node {
+        NodeTy::FunArg { vararg, mutable, var, ty, default } =>
+            c matches Core::FunArg { vararg: v2, var: cv, ty: t2, default: d2 }
+            && v2 == vararg && Some(*cv) == conv(*var, state, ctx)
+            && (match default { Some(d) => d2 matches Some(dd) && Some(*dd) == conv(*d, state, ctx), None => d2 is None }),
+        _ => true,
+    }
+}
+/// C17 "exists in the emitted module under the same name": a plain (non-operator) function is emitted under the conversion
+/// of its declared name — up to the renaming table size -> __size__, init -> __init__ (the outlined string match)
+pub open spec fn fun_id_post(ast: ASTTy, state: State, ctx: Context, c: Core) -> bool {
+    match (ast.node, c) {
+        (NodeTy::FunDef { id, args, ret, raises, body, pure }, Core::FunDef { dec, id: cid, arg, ty, body: cb }) =>
+            conv(*id, state, ctx) matches Some(Core::Id { lit }) && cid@ == fun_name_of(lit@),
+        _ => true,
+    }
+}
+
 /// C16: a function emitted with the `abstractmethod` decorator has `from abc import abstractmethod`
 /// registered by the time it is returned
 pub open spec fn abstract_post(ast: ASTTy, state: State, c: Core, imp: Imports) -> bool {
@@ -262,7 +283,9 @@ impl State {
 //@@< match lit.as_str() { "size" => String::from("__size__"), function::python::INIT => String::from("__init__"), other => String::from(other), }
 //@@> verif_outline_fun_name(lit)
     ensures
-        r matches Ok(c) ==> fundef_post(*ast, *state, *ctx, c),                  //# implicit_return_keyed_on_declared_type [C11,C01]
+        r matches Ok(c) ==> fundef_post(*ast, *state, *ctx, c),                  //# implicit_return_keyed_on_declared_type [C11,C01,C17]
+        r matches Ok(c) ==> funarg_post(*ast, *state, *ctx, c),                  //# parameter_keeps_name_variadic_marker_and_default [C17]
+        r matches Ok(c) ==> fun_id_post(*ast, *state, *ctx, c),                  //# function_is_emitted_under_its_declared_name [C17]
         r matches Ok(c) ==> fundef_ty_post(*ast, *state, c),                     //# annotate_gates_only_the_annotation [C11]
         r matches Ok(c) ==> abstract_post(*ast, *state, c, *final(imp)),         //# abstractmethod_import_registered [C16]
         forall|m: Seq<char>, n: Seq<char>| imp_has_from(*old(imp), m, n) ==> imp_has_from(*final(imp), m, n),   //# imports_only_grow [C16]
